@@ -1272,9 +1272,9 @@ Example nonvacuous_history :
      = [Ok OUnit; Ok (OHandleCached 1 nv_child); PyExc OtherPyError; Ok OUnit; Ok OUnit;
         Ok (OHandleCached 1 nv_base); Ok (OText [91;48;66;75;75;93]%N)]
   /\ fst (step 60 (final 60 init nv_ops) (Render (Cached 1 nv_child) nv_data None None))
-     = Ok (OText [91;48;67;75;48;75;93]%N)
+     = Ok (OText [91;48;67;75;49;75;93]%N)
   /\ fst (step 60 (final 60 init (erase nv_ops)) (Render (Cached 1 nv_child) nv_data None None))
-     = Ok (OText [91;48;67;75;48;75;93]%N)
+     = Ok (OText [91;48;67;75;49;75;93]%N)
   (* the failed render did leave something behind: the parsed base template in the cache *)
   /\ snap (final 60 init (firstn 3 nv_ops)) <> snap (final 60 init (erase (firstn 3 nv_ops))).
 Proof. vm_compute. repeat split. discriminate. Qed.
